@@ -63,7 +63,8 @@ self.individualMap = pd.DataFrame(_M).T
     ok = has(cg.node, "df['_bio_groups'] = pd.Series(df[column] != df[column].shift(1)).cumsum()\n_R = len(df['_bio_groups'].unique())\n___\nreturn _R")
     ctx.add('C09.R1', 'count_number_of_groups', ok, cg, 'a group starts wherever the value differs from the previous row' if ok else 'count_number_of_groups changed', 'groups')
 
-    ecc(ctx, 'C09.R2', methods={'setPanel', 'setDataMap'})
+    # (the table handed to the engine must be the one the panel map describes: database.data, which build_panel_map re-sorts)
+    ecc(ctx, 'C09.R2', methods={'setPanel', 'setDataMap', 'setData'})
     B = prog.cls('biogeme', 'BIOGEME')
     for name in ('__init__', 'simulate', 'calculate_likelihood', 'calculate_likelihood_and_derivatives'):
         f = B.methods[name]
@@ -121,7 +122,7 @@ if the_expression.embed_expression('PanelLikelihoodTrajectory'):
     for o in sub.obligations:
         if o.construct in ('BIOGEME.__init__:panel-placement', 'BIOGEME.simulate:panel', 'Expression.check_panel_trajectory', 'Variable.check_panel_trajectory',
                            'PanelLikelihoodTrajectory.check_panel_trajectory', 'MultipleExpression.check_panel_trajectory', 'PanelLikelihoodTrajectory.audit', 'MonteCarlo.audit'):
-            ctx.add('C09.R4', o.construct, o.ok, (o.file, o.line), o.message, o.detail)
+            ctx.adopt('C09.R4', o)
     PT = prog.find_class('PanelLikelihoodTrajectory', 'expressions')
     f = PT.methods['count_panel_trajectory_expressions']
     ok = body_is(f.body, 'return 1 + self.child.count_panel_trajectory_expressions()') is not None
@@ -141,7 +142,7 @@ if the_expression.embed_expression('PanelLikelihoodTrajectory'):
     for o in sub1.obligations:
         if o.construct in ('PanelLikelihoodTrajectory:record', 'PanelLikelihoodTrajectory.__init__(child)'):
             got += 1
-            ctx.add('C09.R4', o.construct, o.ok, (o.file, o.line), o.message, o.detail)
+            ctx.adopt('C09.R4', o)
     ctx.need(got == 2, 'record and constructor obligations of PanelLikelihoodTrajectory')
     ctx.floor('C09.R4', 10)
     # a resampled individual map handed to an engine is replaced by the map of the data before the entry point returns
@@ -153,7 +154,7 @@ if the_expression.embed_expression('PanelLikelihoodTrajectory'):
     for o in sub2.obligations:
         if 'setDataMap' in o.construct:
             nmap += 1
-            ctx.add('C09.R2', o.construct, o.ok, (o.file, o.line), o.message, o.detail)
+            ctx.adopt('C09.R2', o)
     ctx.need(nmap >= 1, 'an entry point hands a resampled individual map to the engine (bootstrap)')
     ctx.floor('C09.R2', 9)
 
